@@ -50,3 +50,39 @@ package views
 //@   fp-inexact
 //@   modifies nothing
 //@   ensures [share] total > 0 && val <= total ==> abs(result - 100.0 * real(val) / real(total)) <= 0.000001
+//@
+//@ func (*Views).Start
+//@   props C19 C06 C05
+//@   requires v != nil
+//@   modifies nothing
+//@   ensures [same-data] result != nil && fresh(result) && deref(result.data) == data && result.view == v.start
+//@
+//@ func (*Views).Setup
+//@   props C19 C06 C05
+//@   requires v != nil
+//@   modifies nothing
+//@   ensures [same-data] result != nil && fresh(result) && deref(result.data) == data && result.view == v.setup
+//@
+//@ func (*Views).Teardown
+//@   props C19 C06 C05
+//@   requires v != nil
+//@   modifies nothing
+//@   ensures [same-data] result != nil && fresh(result) && deref(result.data) == data && result.view == v.teardown
+//@
+//@ func (*Views).Timeout
+//@   props C19 C06 C05
+//@   requires v != nil
+//@   modifies nothing
+//@   ensures [same-data] result != nil && fresh(result) && deref(result.data) == data && result.view == v.timeout
+//@
+//@ func (*Views).MaxIterationsReached
+//@   props C19 C06 C05
+//@   requires v != nil
+//@   modifies nothing
+//@   ensures [same-data] result != nil && fresh(result) && deref(result.data) == data && result.view == v.maxIterationsReached
+//@
+//@ func (*Views).Interrupt
+//@   props C19 C06 C05
+//@   requires v != nil
+//@   modifies nothing
+//@   ensures [same-data] result != nil && fresh(result) && deref(result.data) == data && result.view == v.interrupt
